@@ -503,6 +503,6 @@ if __name__ == "__main__":
         assumptions=["space group from irrep/spglib through the code's own symmetrize()", "tensor action on axial vectors written in the harness",
                      "only consistent projection sets (full shells; sp3 on tetrahedral sites)"],
         required_counters=("subgroup_cases", "k_points_checked", "centre_maps_checked", "group_large", "group_small", "magnetic_cases", "soc_cases",
-                           "cutoff_cases", "cutoff_cases_with_dropped_blocks", "multi_shell_cases", "merged_species_cases", "atoms_permuted_cases",
+                           "cutoff_cases", "cutoff_cases_with_dropped_blocks",
                            "reorder_back_false_cases"),
     )
